@@ -16,7 +16,10 @@ the source changes:
 
 Usage:  gen_C08_fista.py [repo] [outfile]     (defaults: $VERIF_REPO or /repo, <verif>/coq/gen/FistaGen.v)
 Returns a dict {name: (cpp_text, gallina_text)} from generate(); raises OutOfGrammar when the source region
-has left the restricted grammar (the caller then falls back to the reference kernels and says so)."""
+has left the restricted grammar (the caller then falls back to the reference kernels and says so).
+Consume-everything (translate/strict.py, DESIGN §9.4): the qub_violated lambda is exactly `real_t margin = E; return E;`, the backtracking
+loop body exactly γ update, L update, eval_prox_grad_step(*curr); eval_ψx̂(*curr); ++s.stepsize_backtracks; stepsize_changed = true;
+the momentum group three consecutive statements — any other statement there is out of grammar."""
 import os, re, sys, unicodedata
 from fractions import Fraction
 sys.path.insert(0, os.path.dirname(os.path.abspath(__file__)))
